@@ -25,7 +25,8 @@ CONSTANTS Target,        \* instructions after which the walk only closes what i
           CallSigs,      \* set of callee signatures [p, r] available in the module
           AllowInvalid,  \* TRUE: one MutateInvalid step may happen
           AddrClass,     \* class of address constants: "addr" (mostly in bounds) or "edge" (around the end of the memory)
-          Idioms         \* TRUE: the compound steps that instruction selection fuses (compare+branch, operand atoms) are enabled
+          Idioms,        \* TRUE: the compound steps that instruction selection fuses (compare+branch, operand atoms) are enabled
+          Features       \* subset of {"grow", "bulk", "table", "brtable"}: instruction groups outside the signature table
 
 VARIABLES code, vstack, cstack, bad, fin,
           pend           \* "" or the second stage of a compound idiom step ("rel": operands pushed, relation to be chosen; "relsel": then select)
@@ -34,13 +35,15 @@ vars == <<code, vstack, cstack, bad, fin, pend>>
 NumT == {"i32", "i64", "f32", "f64"}
 ValT == NumT \cup {"v128"}
 (* locals: parameters first, then two scratch locals per numeric type, one v128, three loop counters, one address register *)
-Scratch == <<"i32", "i32", "i64", "i64", "f32", "f32", "f64", "f64", "v128", "i32", "i32", "i32", "i32">>
+Scratch == <<"i32", "i32", "i64", "i64", "f32", "f32", "f64", "f64", "v128", "i32", "i32", "i32", "i32", "funcref", "externref">>
+RefT == {"funcref", "externref"}
 Locals == Params \o Scratch
 ScratchBase == Len(Params)
-TmpOf(t) == ScratchBase + (CASE t = "i32" -> 1 [] t = "i64" -> 3 [] t = "f32" -> 5 [] t = "f64" -> 7 [] t = "v128" -> 9)
+TmpOf(t) == ScratchBase + (CASE t = "i32" -> 1 [] t = "i64" -> 3 [] t = "f32" -> 5 [] t = "f64" -> 7 [] t = "v128" -> 9
+                                [] t = "funcref" -> 14 [] t = "externref" -> 15)
 Counter(d) == ScratchBase + 9 + d        \* d = 1..3: loop nesting level
 AR == ScratchBase + 13                   \* the address register: written only by SetAddr, base of the *Reg accesses
-FreeLocals == 1..(ScratchBase + 9)       \* everything but the loop counters and the address register
+FreeLocals == (1..(ScratchBase + 9)) \cup {ScratchBase + 14, ScratchBase + 15}       \* everything but the loop counters and the address register
 
 I(op, a, b) == [op |-> op, a |-> a, b |-> b]
 LocalsOf(t) == {i \in FreeLocals : Locals[i] = t}
@@ -216,7 +219,7 @@ LocalSet == /\ Live /\ Growing /\ Avail >= 1
 GlobalGet == /\ Live /\ Growing
              /\ \E t \in ValT : vstack' = Append(vstack, t) /\ Emit(<<I("global.get", t, "")>>)      \* one mutable global per type
              /\ UNCHANGED <<cstack, bad, fin>>
-GlobalSet == /\ Live /\ Growing /\ Avail >= 1
+GlobalSet == /\ Live /\ Growing /\ Avail >= 1 /\ vstack[Len(vstack)] \in ValT
              /\ vstack' = Pop(1) /\ Emit(<<I("global.set", vstack[Len(vstack)], "")>>)
              /\ UNCHANGED <<cstack, bad, fin>>
 Drop == /\ Live /\ Avail >= 1 /\ Growing
@@ -224,7 +227,7 @@ Drop == /\ Live /\ Avail >= 1 /\ Growing
 Select == /\ Live /\ Growing /\ Avail >= 3 /\ vstack[Len(vstack)] = "i32"
           /\ vstack[Len(vstack) - 1] = vstack[Len(vstack) - 2]
           /\ vstack' = Pop(2)
-          /\ Emit(<<I(IF vstack[Len(vstack) - 1] = "v128" THEN "select_t" ELSE "select", vstack[Len(vstack) - 1], "")>>)
+          /\ Emit(<<I(IF vstack[Len(vstack) - 1] \in {"v128"} \cup RefT THEN "select_t" ELSE "select", vstack[Len(vstack) - 1], "")>>)     \* references need the typed form
           /\ UNCHANGED <<cstack, bad, fin>>
 
 Call == /\ Live /\ Growing
@@ -291,6 +294,77 @@ Exit == /\ Live /\ Growing /\ Len(cstack) > 1
         /\ cstack' = [cstack EXCEPT ![Len(cstack)].unreach = TRUE]
         /\ UNCHANGED <<vstack, bad, fin>>
 
+
+-----------------------------------------------------------------------------
+(* Instruction groups that are not rows of the signature table: they name a memory, a table, a segment or a label
+   vector.  The module the driver assembles has: memory 0 (1 page, max 2), table 0 (the callee stubs, never
+   written), table 1 (funcref, 4..8 entries), table 2 (externref, 2..4), data segments 0-1 active (dropped after
+   instantiation) and 2-3 passive, element segment 0 active and 1 passive.  Addresses, lengths, page counts and
+   table indices are classes the driver draws from (mostly in range, sometimes just outside). *)
+Has(f) == f \in Features
+C32(class) == I("i32.const", class, "")
+
+(* operand classes: most draws stay inside the object, "X" classes lie around or beyond its end *)
+Rare == Len(code) % 4 = 0                                \* the out-of-range classes are offered on a quarter of the steps
+PageClasses == {"pages0", "pages1"} \cup (IF Rare THEN {"pagesX"} ELSE {})
+LenClasses == {"len0", "len1", "lenS"} \cup (IF Rare THEN {"lenX"} ELSE {})          \* 0, 1, 2..40, far too long
+TLenClasses == {"len0", "len1", "lenT"}                  \* 0, 1, 2..4
+TIdxClasses == {"tidxA"} \cup (IF Rare THEN {"tidxB"} ELSE {})               \* inside the initial size; around the end / beyond
+
+MemSize == /\ Live /\ Growing /\ Has("grow")
+           /\ vstack' = Append(vstack, "i32") /\ Emit(<<I("memory.size", "", "")>>) /\ UNCHANGED <<cstack, bad, fin>>
+MemGrow == /\ Live /\ Growing /\ Has("grow")          \* [i32] -> [i32]; the old size or -1
+           /\ vstack' = Append(vstack, "i32") /\ \E pc \in PageClasses : Emit(<<C32(pc), I("memory.grow", "", "")>>)
+           /\ UNCHANGED <<cstack, bad, fin>>
+Bulk ==    \* memory.fill / copy / init : [i32 i32 i32] -> [] ; data.drop
+  /\ Live /\ Growing /\ Has("bulk")
+  /\ \E ln \in LenClasses :
+     \/ Emit(<<C32(AddrClass), C32("const"), C32(ln), I("memory.fill", "", "")>>)
+     \/ Emit(<<C32(AddrClass), C32(AddrClass), C32(ln), I("memory.copy", "", "")>>)
+     \/ \E seg \in (IF Rare THEN 1..3 ELSE 2..3) : Emit(<<C32(AddrClass), C32("segoff"), C32(ln), I("memory.init", seg, "")>>)   \* 1: active, i.e. dropped
+     \/ \E seg \in 2..3 : Len(code) % 7 = 0 /\ ln = "len0" /\ Emit(<<I("data.drop", seg, "")>>)
+  /\ UNCHANGED <<vstack, cstack, bad, fin>>
+
+RefProduce ==   \* ref.null t / ref.func f / table.get
+  /\ Live /\ Growing /\ Has("table")
+  /\ \/ \E t \in RefT : vstack' = Append(vstack, t) /\ Emit(<<I("ref.null", t, "")>>)
+     \/ \E s \in CallSigs : vstack' = Append(vstack, "funcref") /\ Emit(<<I("ref.func", s, "")>>)
+     \/ \E ti \in TIdxClasses : vstack' = Append(vstack, "funcref") /\ Emit(<<C32(ti), I("table.get", 1, "")>>)
+     \/ \E ti \in TIdxClasses : vstack' = Append(vstack, "externref") /\ Emit(<<C32(ti), I("table.get", 2, "")>>)
+  /\ UNCHANGED <<cstack, bad, fin>>
+TableOf(t) == IF t = "funcref" THEN 1 ELSE 2
+RefOnTop == Avail >= 1 /\ vstack[Len(vstack)] \in RefT
+RefConsume ==   \* with a reference on top: ref.is_null, table.set, table.grow, table.fill
+  /\ Live /\ Growing /\ Has("table") /\ RefOnTop
+  /\ LET t == vstack[Len(vstack)]  tb == TableOf(t) IN
+     \/ vstack' = Append(Pop(1), "i32") /\ Emit(<<I("ref.is_null", "", "")>>)
+     \/ \E ti \in TIdxClasses : vstack' = Pop(1) /\ Emit(<<I("local.set", TmpOf(t), ""), C32(ti), I("local.get", TmpOf(t), ""), I("table.set", tb, "")>>)
+     \/ \E pc \in PageClasses : vstack' = Append(Pop(1), "i32") /\ Emit(<<C32(pc), I("table.grow", tb, "")>>)
+     \/ \E ti \in TIdxClasses : \E ln \in TLenClasses :
+          vstack' = Pop(1) /\ Emit(<<I("local.set", TmpOf(t), ""), C32(ti), I("local.get", TmpOf(t), ""), C32(ln), I("table.fill", tb, "")>>)
+  /\ UNCHANGED <<cstack, bad, fin>>
+TableOps ==     \* table.size, table.copy, table.init, elem.drop, and a call through the mutable table
+  /\ Live /\ Growing /\ Has("table")
+  /\ \/ \E tb \in 1..2 : vstack' = Append(vstack, "i32") /\ Emit(<<I("table.size", tb, "")>>)
+     \/ vstack' = vstack /\ \E src \in 0..1 : \E ln \in TLenClasses : Emit(<<C32("tidxA"), C32("tidxA"), C32(ln), I("table.copy", 1, src)>>)
+     \/ vstack' = vstack /\ \E ti \in TIdxClasses : \E ln \in TLenClasses : Emit(<<C32(ti), C32("tidxA"), C32(ln), I("table.copy", 1, 1)>>)
+     \/ vstack' = vstack /\ \E seg \in (IF Rare THEN 0..1 ELSE 1..1) : \E ln \in TLenClasses : Emit(<<C32("tidxA"), C32("segoff"), C32(ln), I("table.init", seg, 1)>>)
+     \/ vstack' = vstack /\ Len(code) % 7 = 0 /\ Emit(<<I("elem.drop", 1, "")>>)
+     \/ \E s \in CallSigs : /\ Len(s.p) <= Avail /\ TopTypes(Len(s.p)) = s.p
+                            /\ vstack' = Pop(Len(s.p)) \o s.r
+                            /\ Emit(<<C32("tidxA"), I("call_indirect_t1", s, "")>>)
+  /\ UNCHANGED <<cstack, bad, fin>>
+
+(* br_table: [i32] and the operands of the targets; all targets must expect the same types - here none *)
+BrTable ==
+  /\ Live /\ Growing /\ Has("brtable") /\ Len(cstack) > 1 /\ Top.kind \in {"if", "else"}
+  /\ Avail >= 1 /\ vstack[Len(vstack)] = "i32"
+  /\ LET targets == {d \in 0..(Len(cstack) - 2) : cstack[Len(cstack) - d].kind \in {"block", "if", "else"} /\ cstack[Len(cstack) - d].res = <<>>} IN
+     \E d1 \in targets : \E d2 \in targets : \E d3 \in targets : Emit(<<I("br_table", <<d1, d2>>, d3)>>)
+  /\ vstack' = Pop(1)
+  /\ cstack' = [cstack EXCEPT ![Len(cstack)].unreach = TRUE]
+  /\ UNCHANGED <<bad, fin>>
+
 -----------------------------------------------------------------------------
 (* closing phase: drop what is too much, push what is missing, end *)
 Need == Top.res
@@ -337,9 +411,12 @@ MutateInvalid ==
 
 Step == \/ Plain \/ MemLoad \/ MemStore \/ MemLane \/ LocalGet \/ LocalSet \/ GlobalGet \/ GlobalSet \/ Drop \/ Select \/ Call
         \/ SetAddr \/ MemLoadReg \/ MemStoreReg \/ MemStoreAtom \/ GuardedAccess \/ FusedBin
+        \/ MemSize \/ MemGrow \/ Bulk \/ RefProduce \/ RefConsume \/ TableOps \/ BrTable
         \/ OpenBlock \/ OpenLoop \/ OpenIf \/ Else \/ End \/ BrIf \/ Exit \/ Close \/ Finish \/ MutateInvalid
 (* a comparison result is consumed by a conditional most of the time (OpenIf is enabled whenever the guard holds) *)
 Next == IF pend # "" THEN PickRel
+        ELSE IF Has("table") /\ Live /\ Growing /\ RefOnTop /\ Len(code) % 5 # 4        \* a fresh reference is used, most of the time
+        THEN RefConsume /\ pend' = ""
         ELSE IF Idioms /\ JustCompared /\ Live /\ Growing /\ Len(cstack) < 5 /\ Len(code) % 4 # 3
         THEN (OpenIf \/ BrIf) /\ pend' = ""
         ELSE (Step /\ pend' = "") \/ FusedAtoms
